@@ -26,11 +26,27 @@ import common
 
 TRACE: list = []
 FAULT_POS = [None]        # position (0-based) within the current assignment whose callback raises
+FAULT_KIND = ["user"]     # which exception type it raises
+
+
+class HarnessBaseExc(BaseException):
+    """a BaseException that is not an Exception (KeyboardInterrupt-like)"""
+
+
+FAULT_TYPES = {
+    "keyError": KeyError, "lookupError": LookupError, "attributeError": AttributeError, "typeError": TypeError,
+    "valueError": ValueError, "stopIteration": StopIteration, "baseException": HarnessBaseExc,
+}
 SELF = [None]
 RECORD = [True]
 
 
 # --------------------------------------------------------------------------------------------- callbacks
+def pyval(tok):
+    """the Python object a value token stands for: the token "None" is None itself, "" the empty (falsy) string"""
+    return None if tok == "None" else sys.intern(tok)
+
+
 def canon(v):
     if isinstance(v, str):
         return v
@@ -49,7 +65,10 @@ def _event(kind, field, idx, args):
     pos = len(TRACE)
     TRACE.append({"id": {"kind": kind, "field": field, "idx": idx}, "args": [canon(a) for a in args]})
     if FAULT_POS[0] is not None and FAULT_POS[0] == pos:
-        raise common.UserError(f"{kind}.{field}.{idx}")
+        t = FAULT_TYPES.get(FAULT_KIND[0])
+        if t is None:
+            raise common.UserError(f"{kind}.{field}.{idx}")
+        raise t(f"{kind}.{field}.{idx}")
 
 
 _HOOKS: dict = {}
@@ -62,6 +81,8 @@ def user_hook(i):
         def hook(inst, a, value, _i=i):
             tag = str(a.metadata.get("tag", "?" + a.name))
             _event("hook", tag, _i, [inst, a, value])
+            if _i >= 900:
+                return None                      # a hook that returns None: None is what gets stored
             return f"h{_i}.{tag}({canon(value)})"
         hook.__name__ = f"hook{i}"
         h = _HOOKS[i] = hook
@@ -158,6 +179,17 @@ def field_obj(f, next_gen):
     return (attrs.field if next_gen else attr.ib)(**kw)
 
 
+def _bases(cs, base, idx):
+    """the chain parent, plus the optional plain mixin (a fresh class deriving from object) before or after it"""
+    mx = cs.get("mixin")
+    if mx is None:
+        return (base,)
+    M = type(f"M{idx}", (object,), {"__slots__": ()} if mx else {})
+    if base is object:
+        return (M,)
+    return (M, base) if cs.get("mixin_first", True) else (base, M)
+
+
 def build_class(cs, base, idx):
     name = f"K{idx}"
     ns = {"__module__": "verif_c06"}
@@ -168,7 +200,7 @@ def build_class(cs, base, idx):
             ns["__setattr__"] = own_setattr
         if cs.get("exc") and base is object and not cs["slots"]:
             base = Exception            # an exception hierarchy: for the model just a plain class with a __dict__
-        return type(name, (base,), ns)
+        return type(name, _bases(cs, base, idx), ns)
     api = cs.get("api") or ("define" if cs["isDefine"] else "attr.s")
     next_gen = cs["isDefine"]
     if cs["ownSetattr"]:
@@ -213,12 +245,13 @@ def build_class(cs, base, idx):
     if cs.get("no_weakref") and cs["slots"]:
         kw["weakref_slot"] = False
     fields = cs["fields"]
+    bases = _bases(cs, base, idx)
     if api == "these":
-        cls = type(name, (base,), ns)
+        cls = type(name, bases, ns)
         return attr.s(these={f["name"]: field_obj(f, False) for f in fields}, **kw)(cls)
     if api == "make_class":
         body = {k: v for k, v in ns.items() if k != "__module__"}
-        return attr.make_class(name, {f["name"]: field_obj(f, False) for f in fields}, bases=(base,),
+        return attr.make_class(name, {f["name"]: field_obj(f, False) for f in fields}, bases=bases,
                                class_body=body, **kw)
     anns = {}
     for f in fields:
@@ -227,7 +260,7 @@ def build_class(cs, base, idx):
             anns[f["name"]] = int
     if anns:
         ns["__annotations__"] = anns
-    cls = type(name, (base,), ns)
+    cls = type(name, bases, ns)
     return deco(**kw)(cls)
 
 
@@ -257,6 +290,12 @@ def define_chain(classes):
 
 
 def exc_json(e):
+    # the exact type for the injected kinds (a KeyError turned into its base class would be a different outcome)
+    for name, t in FAULT_TYPES.items():
+        if type(e) is t:
+            return name
+    if not isinstance(e, Exception):
+        return "baseException"
     k = common.exc_kind(e)
     if k.startswith("user:"):
         return {"user": {"tok": k[5:]}}
@@ -316,7 +355,7 @@ def _ctor_value(C, fields, a):
     try:
         inst = C.__new__(C)
         SELF[0] = inst
-        kw = {alias(f["name"]): (a["value"] if f["name"] == a["name"] else "i." + f["name"]) for f in fields}
+        kw = {alias(f["name"]): (pyval(a["value"]) if f["name"] == a["name"] else "i." + f["name"]) for f in fields}
         inst.__init__(**kw)
         return canon(object.__getattribute__(inst, a["name"]))
     except BaseException:  # noqa: BLE001
@@ -347,10 +386,11 @@ def observe(case):
         for i, a in enumerate(case["history"]):
             del TRACE[:]
             FAULT_POS[0] = fault[1] if fault and fault[0] == i else None
+            FAULT_KIND[0] = case.get("faultKind") or "user"
             exc = None
             try:
                 # equal tokens are the same object (interned), in a generated run and in a replay alike
-                setattr(inst, a["name"], sys.intern(a["value"]))
+                setattr(inst, a["name"], pyval(a["value"]))
             except BaseException as e:  # noqa: BLE001
                 exc = exc_json(e)
             finally:
